@@ -61,13 +61,13 @@ PROFILES = {
     "invalid": {"p_invalid_props": 0.35, "calls": 30},
     "garbage": {"p_garbage": 0.12, "p_bad_connack": 0.25, "p_dead_call": 0.8, "p_inbound": 0.5, "calls": 30,
                 "p_session_loss": 0.3},
-    "timing": {"time": True, "ska": [0, 0, 1, 2, 4, 7, 12], "p_no_pingresp": 0.3, "w_poll": 16, "w_recv": 4,
+    "timing": {"time": True, "ska": [0, 0, 1, 2, 4, 7, 12, 65535], "p_no_pingresp": 0.3, "w_poll": 16, "w_recv": 4,
                "p_cancel": 0.03, "calls": 30, "p_delay": 0.5},
     "stall": {"time": True, "p_stall": 0.3, "p_pend": 0.35, "p_partial": 0.6, "ska": [0, 2, 4], "w_poll": 10, "calls": 30,
               "p_cancel": 0.1, "p_delay": 0.3},
     "arena": {"payload_max": 180, "w_pub0": 6, "w_pub1": 5, "w_pub2": 4, "w_sub": 2, "w_unsub": 1, "w_poll": 6, "p_drop": 0.08,
               "p_session_loss": 0.03, "rm": [0, 8, 3], "calls": 40, "p_fail_ack": 0.02},
-    "keepalive": {"time": True, "ska": [0, 0, 0, 3, 6, 8], "p_no_pingresp": 0.15, "w_poll": 16, "w_recv": 4, "p_cancel": 0.02,
+    "keepalive": {"time": True, "ska": [0, 0, 0, 3, 6, 8, 65535], "p_no_pingresp": 0.15, "w_poll": 16, "w_recv": 4, "p_cancel": 0.02,
                   "calls": 30, "p_delay": 0.7, "p_fault": 0.0, "w_pub0": 1, "w_pub1": 1, "w_pub2": 0, "w_sub": 0, "w_unsub": 0,
                   "w_disconnect": 0, "p_drop": 0.0, "p_inbound": 0.1, "p_broker_disconnect": 0.0},
     # owed acknowledgements half-written when the poll is cancelled, then QoS 0 traffic
